@@ -60,18 +60,22 @@ def env(set_id=None, route=None):
     letters = []
     for t in range(N_TC):
         letters.append(("add_tc", t))
+    # declared widths of the step id and the failure code: one octet for the plain constructor route of set 0, wider elsewhere
+    # (a report decoded with 2-, 4- or 8-octet fields must bring the same step numbers to the tracker)
+    sw = (1, 2, 4, 8)[(set_id + (0 if route == "ctor" else 1)) % 4]
+    cw = (1, 2, 4, 8)[(set_id + (0 if route == "ctor" else 2)) % 4]
     for t in range(N_TC):
         for sub in range(1, 9):
             steps = (1, 2) if sub in (5, 6) else (None,)
             for st in steps:
-                step = None if st is None else PacketFieldEnum.with_byte_size(1, st)
-                notice = FailureNotice(PacketFieldEnum.with_byte_size(1, 7), b"") if sub % 2 == 0 else None
+                step = None if st is None else PacketFieldEnum.with_byte_size(sw, st)
+                notice = FailureNotice(PacketFieldEnum.with_byte_size(cw, 7), b"") if sub % 2 == 0 else None
                 tm = Service1Tm(apid=0x30, subservice=Subservice(sub), timestamp=b"", verif_params=VerificationParams(RequestId.from_pus_tc(tcs[t]), step, notice))
                 if route != "ctor":
                     from spacepackets.ecss.pus_1_verification import UnpackParams
                     from spacepackets.ecss.tm import PusTm
                     raw = bytes(tm.pack())
-                    up = UnpackParams(0, 1, 1)
+                    up = UnpackParams(0, sw, cw)
                     tm = Service1Tm.unpack(raw, up) if route == "unpacked" else Service1Tm.from_tm(PusTm.unpack(raw, 0), up)
                 letters.append(("add_tm", t, sub, st, tm))
     for t in range(N_TC):
